@@ -81,7 +81,7 @@ def function_line_coverage(hit):
             got = {l for (b, l) in hit if b == base and l in lines}
             if got:
                 missing = sorted(lines - got)
-                out["%s.%s" % (base[:-3], name)] = [len(got), len(lines), missing[:12]]
+                out["%s.%s" % (base[:-3], name)] = [len(got), len(lines), missing]
     return out
 
 
